@@ -72,6 +72,25 @@ def wl(ctx, config):
             got = lib_agg(ctx, config, B, parts)
             ctx.ev("halfagg_inc", "composition:n%s" % ("<=8" if k <= 8 else ">8"), True, k, parts, agg)
             ctx.check(got == agg, "halfagg_inc:composition_differs_from_oneshot", "n=%d parts=%s want %s got %s" % (k, parts, agg[-32:].hex(), got[-32:].hex() if got else None), config)
+        # a refused incremental step in the middle of a schedule (one of the NEW keys, not the first, is a zeroed x-only key object; also a
+        # too-small buffer), then the same step again with valid arguments on the buffer as the refused call left it: the schedule of
+        # successful steps must still give the one-shot bytes
+        if 3 <= k <= 16:
+            n1 = rng.randrange(1, k - 1); buflen = 32 * (k + 1)
+            objs = b''.join(B.obj); msgs = b''.join(B.msg)
+            r1 = ctx.call("halfagg_inc", b'', buflen, buflen, objs[:64 * n1], msgs[:32 * n1], b''.join(B.sig[:n1]), 0, n1, config=config)
+            if r1 is not None and r1.ret == 1:
+                a1 = r1.b(2)[:r1.i(1)]
+                bad_objs = bytearray(objs); j = rng.randrange(n1 + 1, k); bad_objs[64 * j:64 * j + 64] = bytes(64)
+                rf = ctx.call("halfagg_inc", a1, buflen, buflen, bytes(bad_objs), msgs, b''.join(B.sig[n1:]), n1, k - n1, config=config, ill=1)
+                rs_ = ctx.call("halfagg_inc", a1, buflen, 32 * k, objs, msgs, b''.join(B.sig[n1:]), n1, k - n1, config=config)       # advertised length one slot too small
+                for cls, rr in (("zeroed_key", rf), ("short_length", rs_)):
+                    if rr is None: continue
+                    ctx.ev("halfagg_inc", "refused_step:" + cls, True, k, n1, agg)
+                    if not ctx.check(rr.ret == 0, "halfagg_inc:refused_step:%s:accepted" % cls, "n=%d n1=%d" % (k, n1), config): continue
+                    left = rr.b(2)[:len(a1)]
+                    r3 = ctx.call("halfagg_inc", left, buflen, buflen, objs, msgs, b''.join(B.sig[n1:]), n1, k - n1, config=config)
+                    if r3 is not None: ctx.check(r3.ret == 1 and r3.b(2)[:r3.i(1)] == agg, "halfagg_inc:retry_after_refused_step_differs_from_oneshot", "n=%d n1=%d refused by %s" % (k, n1, cls), config)
         # buffer-length contract
         for L in sorted(set(list(range(0, 32 * (k + 2) + 1, 32)) + [32 * (k + 1) - 1, 32 * (k + 1) + 1, 31, 33, 1])):
             if L < 0: continue
